@@ -52,7 +52,8 @@ def gen_desc(rng):
         if rng.random() < 0.12:
             desc['stages'].append({'op': 'falsy', 'id': 'uf', 'mod': rng.randrange(2, 4),
                                    'rem': rng.randrange(0, 2),
-                                   'val': rng.choice(['none', 'none', 'zero', 'emptylist', 'false'])})
+                                   'val': rng.choice(['none', 'none', 'zero', 'emptylist', 'false', 'excobj',
+                                                      'filterobj'])})
         a = pargen.abs_eval(desc)
         for j in range(rng.randrange(0, 3)):
             for _try in range(6):
